@@ -462,6 +462,9 @@ fn build_module(s: &ModSpec) -> Option<(Vec<Inst>, Expected)> {
         insts.push(Inst::new("Function", Some(rt), Some(fid), vec![Arg::Mask("FunctionControl", control), Arg::IdRef(int)]));
         let mut labels = vec![];
         let mut exp_blocks = vec![];
+        // (id, type index) of the last operation of the blocks before the current one
+        let mut prev_op: Option<(u32, usize)> = None;
+        let mut prev_op_next: Option<(u32, usize)> = None;
         for (bi, (nops, nphi, term)) in blocks.iter().enumerate() {
             let l = next;
             next += 1;
@@ -471,20 +474,28 @@ fn build_module(s: &ModSpec) -> Option<(Vec<Inst>, Expected)> {
             for j in 0..*nphi {
                 let id = next;
                 next += 1;
-                // sources: ids that are not lifted ops (constants), so the lifter's type sanity check is skipped;
-                // each phi has its own result type
-                let src = const_ids.first().copied().unwrap_or(9);
-                let pt = (bi + j + fi) % type_ids.len();
-                insts.push(Inst::new("Phi", Some(type_ids[pt].0), Some(id), vec![Arg::IdRef(src), Arg::IdRef(l)]));
+                // each phi has its own result type. Sources: for odd j an id that is no lifted op (a constant: the lifter
+                // looks no further); for even j the last operation of an EARLIER block, which has the phi's own type
+                // (a well-typed phi of any declared type - scalar, pointer, array, struct - must lift)
+                let (src, pt) = match (j % 2, prev_op) {
+                    (0, Some((op_id, op_ty))) => (op_id, op_ty),
+                    _ => (const_ids.first().copied().unwrap_or(9), (bi + j + fi) % type_ids.len()),
+                };
+                let from = labels.last().copied().unwrap_or(l);
+                insts.push(Inst::new("Phi", Some(type_ids[pt].0), Some(id), vec![Arg::IdRef(src), Arg::IdRef(from)]));
                 phis.push(pt);
             }
-            for _ in 0..*nops {
+            for k in 0..*nops {
                 let id = next;
                 next += 1;
-                insts.push(Inst::new("IAdd", Some(int), Some(id), vec![Arg::IdRef(int), Arg::IdRef(void)]));
+                // the last operation of a block takes its result type from the whole type list in turn
+                let ot = if k + 1 == *nops { (bi + fi + type_ids.len() - 1) % type_ids.len() } else { type_ids.iter().position(|x| x.0 == int).unwrap() };
+                insts.push(Inst::new("IAdd", Some(type_ids[ot].0), Some(id), vec![Arg::IdRef(int), Arg::IdRef(void)]));
                 last_val = Some(id);
+                prev_op_next = Some((id, ot));
                 n_ops += 1;
             }
+            prev_op = prev_op_next;
             let (t, tdbg) = match *term {
                 "Return" => (Inst::new("Return", None, None, vec![]), "Return".to_string()),
                 "Kill" => (Inst::new("Kill", None, None, vec![]), "Kill".to_string()),
